@@ -43,7 +43,16 @@ type AppSpec struct {
 	ApplyScript map[int]ApplyOverride `json:"apply_script"` // apply call number -> override
 	SmartReject bool                  `json:"smart_reject_sender"`
 	BadLimit    int                   `json:"bad_limit"`
-	InfoLie     string                `json:"info_lie"` // "" | height | hash | version
+	InfoLie     string                `json:"info_lie"`       // "" | height | hash | version
+	Info        *InfoSpec             `json:"info,omitempty"` // verify family: what Info reports after the restore
+}
+
+// InfoSpec scripts the three values of the restored app's Info answer (verify family).  Version is the
+// light-verified app version of the chain is AppSpec.Version.
+type InfoSpec struct {
+	Version uint64 `json:"version"` // reported app version
+	Hash    string `json:"hash"`    // equal | flip (one byte differs) | empty | longer (one byte appended)
+	Height  string `json:"height"`  // equal | +1 | -1 | 0
 }
 
 // Action is something the liar scheduler does at a hold point (while the
@@ -598,4 +607,69 @@ func randBytes(r *rand.Rand, n int) []byte {
 	b := make([]byte, n)
 	r.Read(b)
 	return b
+}
+
+// ---- verify family: a fixed enumeration (stream "verify"), one cheap one-chunk restore per combination
+// of light-verified app version V x app version reported by Info x app hash x last block height.
+
+var verifyVs = []uint64{0, 1, 9, 1<<40 + 7}
+var verifyHash = []string{"equal", "flip", "empty", "longer"}
+var verifyHeight = []string{"equal", "+1", "-1", "0"}
+
+func verifyReported(v uint64) []uint64 { return []uint64{0, 1, 9, v, v + 1, v - 1} }
+
+type verifyCombo struct {
+	v, rep       uint64
+	hash, height string
+}
+
+// verifyCombos: all 4 x 6 x 4 x 4 combinations; the single-mismatch ones (and the all-equal ones) first,
+// so that a short prefix already holds every version pair, every hash mode and every height mode per V.
+func verifyCombos() []verifyCombo {
+	var first, rest []verifyCombo
+	for _, v := range verifyVs {
+		for _, rep := range verifyReported(v) {
+			for _, hm := range verifyHash {
+				for _, gm := range verifyHeight {
+					c := verifyCombo{v, rep, hm, gm}
+					mism := 0
+					if rep != v {
+						mism++
+					}
+					if hm != "equal" {
+						mism++
+					}
+					if gm != "equal" {
+						mism++
+					}
+					if mism <= 1 {
+						first = append(first, c)
+					} else {
+						rest = append(rest, c)
+					}
+				}
+			}
+		}
+	}
+	// spread the multi-mismatch ones deterministically
+	r := rand.New(rand.NewSource(14))
+	r.Shuffle(len(rest), func(i, j int) { rest[i], rest[j] = rest[j], rest[i] })
+	return append(first, rest...)
+}
+
+func genVerifyScenario(verifSeed, sub int64, idx int) *Scenario {
+	all := verifyCombos()
+	cb := all[idx%len(all)]
+	r := rand.New(rand.NewSource(sub))
+	s := &Scenario{Case: idx, Stream: "verify", Seed: verifSeed, SubSeed: sub, Recipes: []string{"verify"},
+		ChainLen: 14, ChainSeed: 1 + int64(idx%4), Discovery: "gate0", Fetchers: int32(1 + r.Intn(4)), ReqTimeout: 400,
+		SPFaults: map[string]string{}}
+	s.App = AppSpec{Version: cb.v, OfferScript: map[int]string{}, ApplyScript: map[int]ApplyOverride{}, BadLimit: 5,
+		Info: &InfoSpec{Version: cb.rep, Hash: cb.hash, Height: cb.height}}
+	h := 6 + uint64(r.Intn(int(s.ChainLen)-2-6+1))
+	s.Catalog = []SnapSpec{{Height: h, Format: 1, Chunks: 1, Kind: "true", Hash: hexs(contentHash(sub, 0, h, 1, 1)), Meta: "76"}}
+	for p := 0; p < 1+r.Intn(2); p++ {
+		s.Peers = append(s.Peers, PeerSpec{Default: "honest", Adverts: [][]int{{0}}})
+	}
+	return s
 }
